@@ -16,7 +16,7 @@ func init() {
 		Explanation: `R11.1 block ranges name library blocks: every OpBlockRange built in ComputeDiff takes FileIndex and BlockIndex from the block findUniqueHash returned and BlockSpan 1; the only other writer of BlockSpan is the merge in enqueue, which is control-dependent on equal file and contiguity; ` +
 			`R11.2 the pending range is flushed before any data op (in enqueue) and by a deferred closure on every return; R11.3 every operation leaves ComputeDiff through the cleaner returned by makeOperationCleaner, which forwards an empty data op only as the first op; ` +
 			`R11.4 every data-op payload is bounded by MaxDataOp by construction: its slice bounds are the pair the size-limit flush controls, a constant extent, or dominated by an explicit bound check; R11.5 every assignment to the start of the hash window (the low bound of βhash's argument) is followed, before the next such assignment or a return, by an assignment to the end of the pending-data window (the pair R11.4 identifies); R01.1 (shared) match acceptance incl. empty windows never match. ` +
-			`R11.6 a data op after which the scan can continue is made only under low < high (an empty one would flush the pending block range and be dropped). NOT decided: replay equality, merge completeness, wrap-around bookkeeping; the exhaustive small-alphabet enumeration the property describes belongs to a dynamic family.`,
+			`R11.6 a data op after which the scan can continue is made only under low < high (an empty one would flush the pending block range and be dropped). R11.7 every assignment to the end of the hash window (High bound of the weak hash's argument) is a min(...), a value merged from operands of the ordering comparison on their way in, or a store followed at once by an ordering test of the field (the clamp idioms). NOT decided: replay equality, merge completeness, wrap-around bookkeeping; the exhaustive small-alphabet enumeration the property describes belongs to a dynamic family.`,
 		Run: runC11,
 	})
 	register(&Property{
@@ -24,7 +24,7 @@ func init() {
 		Explanation: `R08.1 accounting: every op written by the diff's op writer updates exactly one of FreshBytes/ReusedBytes before the write; R08.2 both sides use the same weak (βhash) and strong (uniqueHash) hash functions; ` +
 			`R08.3 after a match the rolling state is reset and the library lookup is skipped only while rolling with an unchanged hash; R08.4 library completeness: NewBlockLibrary inserts every hash, and findUniqueHash gives up (returns nil) only after its fallback loop exhausted the whole bucket. ` +
 			`R08.6 every way round the loop from the rolling-checksum update back to it slides the hash window by one byte (or restarts the hash from scratch). ` +
-			`R01.8 (shared) every file announced in the patch went through the differ (no per-file shortcut that looks blocks up by its own conventions). R08.7 every token the block split function hands to the signer is at most one block: data[:blockSize], or data where len(data) >= blockSize does not hold. R04.7 (shared) WritePatch's path-to-index map is keyed by the path itself. NOT decided (numerical): that the rolling update equals βhash at every offset, the per-edit bound, the values of FreshBytes/ReusedBytes.`,
+			`R01.8 (shared) every file announced in the patch went through the differ (no per-file shortcut that looks blocks up by its own conventions). R08.7 every token the block split function hands to the signer is at most one block: data[:blockSize], or data where len(data) >= blockSize does not hold. R04.7 (shared) WritePatch's path-to-index map is keyed by the path itself. R08.3 also: from the branch that hashes the window from scratch, the next turn of the loop (or a success return) is reached only through the library lookup, whatever form a bypass takes. NOT decided (numerical): that the rolling update equals βhash at every offset, the per-edit bound, the values of FreshBytes/ReusedBytes.`,
 		Run:        runC08,
 		Fixtures:   fixturesAlias,
 		FixturePkg: "aliasfx",
@@ -497,6 +497,138 @@ func runC11(c *core.Ctx) {
 		c.Floor("R11.6", "data ops after which the scan can continue", nMid, 1)
 	}
 
+	// ---- R11.7: the hash window never reaches past the data that was read. Every assignment to the window's end
+	// (the High bound of the slice handed to βhash) is a min(…) of something with the end of the valid data, or is
+	// made where it is known not to exceed something. A window that is simply 'start + block size' takes in a stale
+	// byte of the buffer on the last turn, when fewer bytes are left than a block.
+	c.Rule("R11.7", "the hash window's end is clamped whenever it is set")
+	{
+		var hashHigh ssa.Value
+		for _, f := range core.WithAnons(cd) {
+			core.Instrs(f, func(in ssa.Instruction) {
+				if cl, ok := in.(*ssa.Call); ok && core.CalleeName(cl) == "wsync.βhash" && len(cl.Call.Args) == 1 {
+					if sl, ok := cl.Call.Args[0].(*ssa.Slice); ok && sl.High != nil {
+						hashHigh = sl.High
+					}
+				}
+			})
+		}
+		hb, hf, okHH := core.FieldOf(hashHigh)
+		if hashHigh == nil || !okHH {
+			c.Missing("R11.7", core.FnName(cd), "the end of the hash window (High bound of βhash's argument) is not a struct field")
+		} else {
+			root := core.CellRoot(hb)
+			nSt := 0
+			core.Instrs(cd, func(in ssa.Instruction) {
+				st, ok := in.(*ssa.Store)
+				if !ok {
+					return
+				}
+				b, n, ok := core.FieldOf(st.Addr)
+				if !ok || n != hf || core.CellRoot(b) != root {
+					return
+				}
+				nSt++
+				clamped := true
+				// `e := start + size; if e > limit { e = limit }` merges two values, each of which took part in the
+				// comparison on its way in: a clamp written with an if
+				if ph, isPhi := core.StripConv(st.Val).(*ssa.Phi); isPhi {
+					ifClamp := true
+					for i, e := range ph.Edges {
+						ev := core.StripConv(e)
+						took := false
+						for _, g := range core.EdgeGuards(ph.Block().Preds[i], ph.Block()) {
+							if bo, isB := g.Cond.(*ssa.BinOp); isB {
+								switch bo.Op {
+								case token.LSS, token.LEQ, token.GTR, token.GEQ:
+									if sameExpr(bo.X, ev) || sameExpr(bo.Y, ev) {
+										took = true
+									}
+								}
+							}
+						}
+						if !took {
+							ifClamp = false
+						}
+					}
+					if ifClamp {
+						c.Ok("R11.7", core.FnName(cd), "the end of the hash window is set to a clamped value", core.InstrPos(in), "a value clamped with an if: each merged value was an operand of the comparison on its way in")
+						return
+					}
+				}
+				// the value itself is an operand of an ordering comparison that leads here (`if end >= limit { end = limit }`)
+				whole := core.StripConv(st.Val)
+				if hasGuard(in, func(g core.Guard) bool {
+					bo, isB := g.Cond.(*ssa.BinOp)
+					if !isB {
+						return false
+					}
+					switch bo.Op {
+					case token.LSS, token.LEQ, token.GTR, token.GEQ:
+						return sameExpr(bo.X, whole) || sameExpr(bo.Y, whole)
+					}
+					return false
+				}) {
+					c.Ok("R11.7", core.FnName(cd), "the end of the hash window is set to a clamped value", core.InstrPos(in), "set to an operand of the ordering comparison that leads here")
+					return
+				}
+				// `end = start + size; if end >= limit { end = limit }`: the block that stores ends in an ordering test of
+				// the field just stored
+				if blk := in.Block(); len(blk.Instrs) > 0 {
+					if ifi, isIf := blk.Instrs[len(blk.Instrs)-1].(*ssa.If); isIf {
+						if bo, isB := ifi.Cond.(*ssa.BinOp); isB {
+							switch bo.Op {
+							case token.LSS, token.LEQ, token.GTR, token.GEQ:
+								reads := func(v ssa.Value) bool {
+									ld, ok := core.StripConv(v).(*ssa.UnOp)
+									if !ok || ld.Op != token.MUL {
+										return false
+									}
+									b2, n2, ok := core.FieldOf(ld.X)
+									return ok && n2 == hf && core.CellRoot(b2) == root
+								}
+								if reads(bo.X) || reads(bo.Y) {
+									c.Ok("R11.7", core.FnName(cd), "the end of the hash window is set to a clamped value", core.InstrPos(in), "stored, then tested against a bound right away (clamp written as store + if)")
+									return
+								}
+							}
+						}
+					}
+				}
+				for _, o := range core.Origins(st.Val) {
+					if cl, isCall := o.(*ssa.Call); isCall {
+						if bi, isB := cl.Call.Value.(*ssa.Builtin); isB && bi.Name() == "min" {
+							continue
+						}
+						if f := cl.Call.StaticCallee(); f != nil && f.Name() == "min" {
+							continue
+						}
+					}
+					ov := o
+					bounded := hasGuard(in, func(g core.Guard) bool {
+						bo, isB := g.Cond.(*ssa.BinOp)
+						if !isB {
+							return false
+						}
+						switch {
+						case sameExpr(bo.X, ov):
+							return (bo.Op == token.LEQ && g.Val) || (bo.Op == token.LSS && g.Val) || (bo.Op == token.GTR && !g.Val) || (bo.Op == token.GEQ && !g.Val)
+						case sameExpr(bo.Y, ov):
+							return (bo.Op == token.GEQ && g.Val) || (bo.Op == token.GTR && g.Val) || (bo.Op == token.LSS && !g.Val) || (bo.Op == token.LEQ && !g.Val)
+						}
+						return false
+					})
+					if !bounded {
+						clamped = false
+					}
+				}
+				c.Check(clamped, "R11.7", core.FnName(cd), "the end of the hash window is set to a clamped value", core.InstrPos(in),
+					"min(…) or a value known not to exceed a bound", "the end of the hash window is set to an unclamped value (start + block size): on the last turn, with less than a block left, the window takes in bytes beyond the data that was read - left there by an earlier diff on the same context, or zero - and if that happens to equal a block of the old build a block range is emitted for content the new file does not have")
+			})
+			c.Floor("R11.7", "assignments to the end of the hash window", nSt, 1)
+		}
+	}
+
 	// ---- R11.5: the pending-data window ends where the hash window begins. Whenever the scan moves the start of
 	// the hash window, the end of the pending data follows before the window is moved again (or the function
 	// returns): bytes the scan slid over without a match are in [data.tail, data.head) when the next flush comes.
@@ -710,6 +842,18 @@ func runC08(c *core.Ctx) {
 				}
 				c.Check(skipOK, "R08.3", core.FnName(cd), "library lookup skipped only while rolling", core.InstrPos(lookup),
 					"the skip flag is set only on the rolling branch", "the library lookup can be skipped for a window hashed from scratch: matches right after a match or at the start are missed")
+				// ... whatever form the bypass takes: from the branch that hashes the window from scratch, the
+				// next turn of the loop (or a return) is reached only through the lookup
+				if fresh := rollIf.Block().Succs[1]; len(fresh.Instrs) > 0 {
+					succ := map[ssa.Instruction]bool{}
+					for _, rs := range successReturns(cd) {
+						succ[rs.Ret] = true
+					}
+					// (a failing return before the lookup is not a bypass)
+					p := core.FindPath(cd, fresh.Instrs[0], func(in ssa.Instruction) bool { return in == ssa.Instruction(rollIf) || succ[in] }, isInstr(lookup))
+					c.Check(p == nil, "R08.3", core.FnName(cd), "a window hashed from scratch is looked up", core.InstrPos(fresh.Instrs[0]),
+						"every path from the from-scratch hash to the next turn of the loop passes the library lookup", "a window whose hash was computed from scratch (at the start, or right after a match) can go round the loop without being looked up in the library: the block that follows a match is sent as fresh data although the old build has it (the same block twice in a row, a run of zeroes)").Path = c.P.PathStrings(p)
+				}
 				// ---- R08.6: one rolling update per slide. The update replaces the byte that left the window by
 				// the byte that entered it; applied twice to a window that has not moved it yields a sum that
 				// belongs to no window, every later update inherits the error, and the differ never finds a
